@@ -461,6 +461,9 @@ type waitState struct {
 	setup func(c *simCluster)
 }
 
+// fresh: no traffic before the state is set up (first use of the client)
+func (w waitState) fresh() bool { return strings.HasPrefix(w.name, "first-call") }
+
 var waitStates = []waitState{
 	{"zk-silent", func(c *simCluster) { atomic.StoreInt32(&c.zkSilent, 1) }},
 	{"meta-silent", func(c *simCluster) { c.metaSil = true }},
@@ -489,6 +492,9 @@ var waitStates = []waitState{
 
 // closeOnlyStates are used by the Close scenarios only.
 var closeOnlyStates = []waitState{
+	// the very first call of a client: it is the caller itself that marks hbase:meta unavailable
+	// and starts its establishment, and ZooKeeper has not answered when Close is called
+	{"first-call-zk-slow", func(c *simCluster) { c.zkHold = make(chan struct{}) }},
 	// a request is answered with a server-class exception (e.g. RegionServerStoppedException)
 	// over a connection that itself stays healthy; the retry then succeeds on a new connection
 	{"after-server-exception", func(c *simCluster) {
@@ -632,6 +638,9 @@ func closeScenarioAfter(state *waitState, wait time.Duration) string {
 	base := runtime.NumGoroutine()
 	// some traffic first so that connections and cached regions exist
 	for _, k := range []string{"a", "h", "q", "z"} {
+		if state != nil && state.fresh() {
+			break
+		}
 		g, _ := hrpc.NewGet(context.Background(), []byte("t"), []byte(k))
 		sc.cl.Get(g)
 	}
@@ -733,6 +742,50 @@ func closeScenarioAfter(state *waitState, wait time.Duration) string {
 		second, sc.v.ConnCacheSize())
 }
 
+// closeAfterReplacedRegion: the only region a regionserver hosts for this client is replaced in
+// the location cache by its split daughters on other servers; the connection to the old server
+// has no region left but is still the client's to close.
+func closeAfterReplacedRegion() string {
+	gohbase.VerifSetSleepOverride(fastBackoff)
+	defer gohbase.VerifSetSleepOverride(nil)
+	c := newSimCluster()
+	old := c.addRegion(nil, []byte("u"), nil, nil, "rs9:1")
+	sc := newSimClient(c)
+	get := func(k string) string {
+		ctx, cancel := context.WithTimeout(context.Background(), 5*time.Second)
+		defer cancel()
+		g, _ := hrpc.NewGet(ctx, []byte("u"), []byte(k))
+		_, err := sc.cl.Get(g)
+		return classOf(err)
+	}
+	r1 := get("a")
+	c.mu.Lock()
+	c.split(old, []byte("m"), "rs1:1", "rs2:1")
+	c.mu.Unlock()
+	r2 := get("a")
+	r3 := get("x")
+	settle()
+	t0 := time.Now()
+	sc.cl.Close()
+	closeLat := time.Since(t0)
+	later := get("b")
+	time.Sleep(20 * time.Millisecond)
+	c.mu.Lock()
+	open := 0
+	for _, s := range c.conns {
+		if atomic.LoadInt32(&s.closed) == 0 && atomic.LoadInt32(&s.failed) == 0 {
+			open++
+		}
+	}
+	c.mu.Unlock()
+	inflight := "none"
+	if r1 != "ok" || r2 != "ok" || r3 != "ok" {
+		inflight = "setup-failed"
+	}
+	return fmt.Sprintf("c19 close after-only-region-replaced %d %s 0 %s 0 open=%d late=0 gor=0 second=ok cachesize=%d",
+		closeLat.Microseconds(), inflight, later, open, sc.v.ConnCacheSize())
+}
+
 func init() {
 	props["C04"] = func(tier string, seed uint64, out *Out) {
 		n := 300
@@ -808,6 +861,7 @@ func init() {
 	props["C19"] = func(tier string, seed uint64, out *Out) {
 		var jobs []func() string
 		jobs = append(jobs, func() string { return closeScenario(nil) })
+		jobs = append(jobs, closeAfterReplacedRegion)
 		for _, st := range append(append([]waitState{}, waitStates...), closeOnlyStates...) {
 			st := st
 			jobs = append(jobs, func() string { return closeScenario(&st) })
